@@ -76,8 +76,8 @@ class NxpSim(object):
         return bytearray([value])
 
     def exchange(self, cmd, timeout):
-        if self.mute:
-            raise nfc.clf.TimeoutError("tag in idle/halt state")
+        if self.mute or getattr(self, "gone", False):
+            raise nfc.clf.TimeoutError("tag in idle/halt state or gone")
         rsp = self.execute(cmd)
         if self.tamper is not None:
             rsp = self.tamper(cmd, rsp)
@@ -137,6 +137,8 @@ class NxpClf(object):
 
     def sense(self, *targets, **kw):
         self.nsense += 1
+        if getattr(self.sim, "gone", False):
+            return None                 # the tag has left the field
         self.sim.resense()
         return targets[0]
 
